@@ -137,3 +137,58 @@ Proof.
   - unfold rows_of. cbn [map concat snd]. apply app_nil_r.
   - eexists. split; [vm_compute; reflexivity|discriminate].
 Qed.
+
+(* ---- the ##FASTA section: one record, its sequence cut into lines, every symbol in the alphabet: the list reader of C16 returns
+   it, and decoded it is the sequence in upper case ---- *)
+From GF Require Import Symbols FastaProofs.
+Lemma unlines_render (ls : list (list N)) : concat (map (fun l => l ++ [10]) ls) = FastaLayout.render (combine ls (repeat false (length ls))).
+Proof. induction ls as [|l t IH]; [reflexivity|]. cbn [map concat length repeat combine FastaLayout.render eol]. rewrite IH, <- app_assoc. reflexivity. Qed.
+Definition valid_chunk (c : list N) : Prop := Forall (fun x => x < 256 /\ valid x = true) c.
+Lemma conv_valid_chunk c : valid_chunk c -> conv_line (conv_enc false) c = Some (map (enc false) c).
+Proof.
+  induction 1 as [|x t [Hx Hv] _ IH]; [reflexivity|]. cbn [conv_line map]. rewrite IH. unfold conv_enc.
+  destruct (N.eqb_spec (enc false x) 0) as [E|_]; [|reflexivity]. exfalso. apply (enc_valid_iff false x Hx) in Hv. contradiction.
+Qed.
+Lemma decode_valid c : valid_chunk c -> concat (map dec (map (enc false) c)) = map upper c.
+Proof. induction 1 as [|x t [Hx Hv] _ IH]; [reflexivity|]. cbn [map concat]. rewrite (dec_enc false x Hx Hv), IH. reflexivity. Qed.
+Lemma valid_concat chunks : Forall valid_chunk chunks -> valid_chunk (concat chunks).
+Proof. induction 1 as [|c t Hc _ IH]; [constructor|]. cbn [concat]. apply Forall_app. split; assumption. Qed.
+
+Theorem gff_fasta_section (hdr : list N) (chunks : list (list N)) (id : list N) :
+  first_field hdr = Some id -> concat chunks <> [] -> Forall valid_chunk chunks ->
+  Forall ok_line ((62 :: hdr) :: chunks) ->
+  fasta_of ((62 :: hdr) :: chunks) = Ok (Some [{| r_id := id; r_desc := hdr; r_seq := map upper (concat chunks); r_idx := 0 |}]).
+Proof.
+  intros Hid Hne Hv Hok. unfold fasta_of. rewrite unlines_render. unfold read_encoded.
+  assert (Ef : (62 :: hdr) :: chunks = flat_map lines_of ((hdr, chunks) :: [])) by (cbn [flat_map lines_of fst snd app]; rewrite app_nil_r; reflexivity).
+  rewrite Ef.
+  rewrite (reader_layout_independent (conv_enc false) (length (concat chunks)) (hdr, chunks) []).
+  - cbn [bind index_recs map]. unfold rec_of, decode_rcd. cbn [fst snd r_id r_desc r_seq r_idx]. rewrite Hid.
+    rewrite (conv_valid_chunk _ (valid_concat chunks Hv)), (decode_valid _ (valid_concat chunks Hv)). reflexivity.
+  - reflexivity.
+  - destruct (concat chunks); [congruence|cbn; lia].
+  - split; [exists id; exact Hid|]. split.
+    + eapply Forall_impl; [|exact Hv]. intros c Hc. exists (map (enc false) c). apply conv_valid_chunk. exact Hc.
+    + exists (map (enc false) (concat chunks)). split; [apply conv_valid_chunk, valid_concat; exact Hv|apply map_length].
+  - constructor.
+  - rewrite <- Ef. exact Hok.
+  - rewrite repeat_length. reflexivity.
+Qed.
+
+(* the whole chain for a GFF3 file: bytes -> lines -> directives, rows, sequence section -> grouped rows -> regions *)
+Corollary gff_bytes_to_regions_full (regs : list (list N * (nat * nat))) (rows : list grow) (hdr : list N) (chunks : list (list N)) (id : list N)
+        (gs : list group) (rs : list cregion) (lines : list (list N * bool)) :
+  let genome := degap (map upper (concat chunks)) in
+  Forall wf_region regs -> rows <> [] -> Forall wf_row rows ->
+  first_field hdr = Some id -> concat chunks <> [] -> Forall valid_chunk chunks -> Forall ok_line ((62 :: hdr) :: chunks) ->
+  map feat_of rows = rows_of gs -> Forall group_ok gs -> NoDup (map fst gs) ->
+  Forall2 (fun g x => region_from_gfeats genome (snd g) = Ok x) gs rs -> Forall (fun x => cr_name x <> []) rs ->
+  Forall (fun le => ok_line (fst le)) lines ->
+  map fst lines = version_line :: map region_line regs ++ map render_row rows ++ bs "##FASTA" :: (62 :: hdr) :: chunks ->
+  regions_of_gff_text (FastaLayout.render lines) =
+  bind (codes rs (length genome)) (fun inter => Ok (ssort cregion (fun a b => (cr_start a <? cr_start b)%Z) rs, inter)).
+Proof.
+  intros genome Hregs Hne Hrows Hid Hc Hv Hok Er Hgs Hnd Hreg Hnamed Hl El.
+  apply (gff_bytes_to_regions regs rows ((62 :: hdr) :: chunks) {| r_id := id; r_desc := hdr; r_seq := map upper (concat chunks); r_idx := 0 |} genome gs rs lines);
+    try assumption; [apply gff_fasta_section; assumption|reflexivity].
+Qed.
